@@ -613,14 +613,34 @@ def _total_bound(kit, form, hcol, Sblk, M2blk, M3blk, eu_rows, pcol):
 # ----------------------------------------------------------------------------------------------------------
 # scenarios
 # ----------------------------------------------------------------------------------------------------------
+class _Deadline(BaseException):
+    pass
+
+
+CASE_DEADLINE = 180      # seconds; a case normally takes 1-3 s
+
+
 def run_case(case, acc):
+    import signal
     np.random.seed(case['seed'] % (2 ** 31))     # OpenMDAO's sparsity perturbations use the global numpy RNG
     scen = case['scenario']
+
+    def _alarm(sig, frm):
+        raise _Deadline()
+    # nested iterative linear solvers fed with a non-finite approximated jacobian run maxiter^depth sweeps:
+    # such a case is abandoned (counted as a guard, never a verdict)
+    old = signal.signal(signal.SIGALRM, _alarm)
+    signal.alarm(CASE_DEADLINE)
     try:
         {'partials': _run_partials, 'colored': _run_colored, 'semitotal': _run_group,
          'total': _run_group}[scen](case, acc)
     except HarnessSkip as e:
         acc.skip(str(e))
+    except _Deadline:
+        acc.skip('case-deadline-exceeded')
+    finally:
+        signal.alarm(0)
+        signal.signal(signal.SIGALRM, old)
 
 
 def _gen_spec(case, **over):
